@@ -53,3 +53,11 @@ prop("C04",
      assumptions=["identifiers contain no frame delimiter / separator (SPA.. / IOS.. style); spa identifiers start with 'SPA'",
                   "Python's regular expression engine is outside the verifier: see bounded"],
      explanation="per message constructor: layout vs literal in.touch2 spec, decode(encode)=id via the real peer handle, exclusivity over all 15 standard handler classes, src/dst swap; config-file message ground over all shipped platform x cfg x log combinations")
+
+prop("C01",
+     level="proof",
+     budget={"quick": 60, "thorough": 300},
+     assumptions=["ENVIRONMENT contract (assumed, it is the property's fault model): while a transfer is in progress every delivered STATV is some element of the spa's chain for that transfer -- any order, multiplicity or omission -- or the wait times out; delays longer than the gap between distinct transfers and forged segments are excluded",
+                  "asyncio.Lock mutual exclusion (assumed contract of the library primitive)",
+                  "threaded class: 'configured number of requests' is read as 1 + retry_count transmissions (the engine counts re-transmissions, see C20)"],
+     explanation="simulator chain by loop invariant; async get by two nested loop invariants (retry accounting, join(segments) = spa prefix) for every loss/dup/reorder pattern; threaded reassembly as a representation invariant preserved by every delivered segment; STATV/STATU codec shared with C04")
